@@ -744,8 +744,13 @@ def complete_ensemble_sift(X, nensembles=4, ensemble_noise=.2,
     res = p.starmap(_sift_with_noise, args)
     imf = np.array([r for r in res]).mean(axis=0)
 
-    args = [(noise[:, ii, None], sift_thresh, 1, imf_opts) for ii in range(nensembles)]
-    res = p.starmap(sift, args)
+    # Sift options are passed by keyword so they reach the stages they configure
+    noise_sift = functools.partial(sift, sift_thresh=sift_thresh, max_imfs=1,
+                                   imf_opts=imf_opts, envelope_opts=envelope_opts,
+                                   extrema_opts=extrema_opts)
+
+    args = [(noise[:, ii, None],) for ii in range(nensembles)]
+    res = p.starmap(noise_sift, args)
     noise = noise - np.array([r[:, 0] for r in res]).T
     layer += 1
 
@@ -765,9 +770,8 @@ def complete_ensemble_sift(X, nensembles=4, ensemble_noise=.2,
         imf = np.concatenate((imf, next_imf), axis=1)
         layer += 1
 
-        args = [(noise[:, ii, None], sift_thresh, 1, imf_opts)
-                for ii in range(nensembles)]
-        res = p.starmap(sift, args)
+        args = [(noise[:, ii, None],) for ii in range(nensembles)]
+        res = p.starmap(noise_sift, args)
         noise = noise - np.array([r[:, 0] for r in res]).T
 
         pks, _ = _find_extrema(imf[:, -1])
